@@ -61,7 +61,10 @@ def main():
         if not re.match(r"C\d\d$", pid):
             continue
         for k in sorted(os.listdir(os.path.join(INC, pid))):
-            if (not sys.argv[1:] or pid in sys.argv[1:]) and (not only_k or k == only_k) and os.path.exists(os.path.join(INC, pid, k, "patch.diff")):
+            want = not sys.argv[1:] or pid in sys.argv[1:] or ("%s/%s" % (pid, k)) in sys.argv[1:]
+            if any(a.startswith(pid + "/") for a in sys.argv[1:]) and ("%s/%s" % (pid, k)) not in sys.argv[1:] and pid not in sys.argv[1:]:
+                want = False
+            if want and (not only_k or k == only_k) and os.path.exists(os.path.join(INC, pid, k, "patch.diff")):
                 seeds.append((pid, k))
     for pid, k in seeds:
         wt = "/tmp/sw-%s-%s" % (pid, k)
